@@ -184,6 +184,10 @@ func (pk *PublicKey) ProofToHash(m, proof []byte) (index [32]byte, err error) {
 	// [t]G + [s]([k]G) = [t+ks]G
 	tGx, tGy := curve.ScalarBaseMult(t)
 	ksGx, ksGy := curve.ScalarMult(pk.X, pk.Y, s)
+	if tGx == nil || ksGx == nil {
+		// s or t is zero or not below the group order
+		return nilIndex, ErrInvalidVRF
+	}
 	tksGx, tksGy := curve.Add(tGx, tGy, ksGx, ksGy)
 
 	// H = H1(m)
@@ -191,6 +195,9 @@ func (pk *PublicKey) ProofToHash(m, proof []byte) (index [32]byte, err error) {
 	Hx, Hy := H1(m)
 	tHx, tHy := curve.ScalarMult(Hx, Hy, t)
 	sHx, sHy := curve.ScalarMult(uHx, uHy, s)
+	if tHx == nil || sHx == nil {
+		return nilIndex, ErrInvalidVRF
+	}
 	tksHx, tksHy := curve.Add(tHx, tHy, sHx, sHy)
 
 	//   H2(G, H, [k]G, VRF, [t]G + [s]([k]G), [t]H + [s]VRF)
